@@ -622,3 +622,83 @@ func runC08IfaceTwin(c *CaseCtx, r *rand.Rand) (res CaseResult) {
 	res.Sample = det
 	return res
 }
+
+// embReq is a parameter struct with exported EMBEDDED fields besides the
+// marker: they are parameters like any other field (named after their type).
+type embReq struct {
+	am.Struct
+	T1
+	I1 `argmapper:",typeOnly"`
+	A  T0
+}
+
+// runC02Embedded: a target (or a converter on the only path) whose parameter
+// struct has exported embedded fields. Without a value for one of them the
+// call is refused and nothing runs; with all of them the function receives
+// exactly the supplied values.
+func runC02Embedded(c *CaseCtx, r *rand.Rand) (res CaseResult) {
+	res.NonTrivial = true
+	asConv := r.Intn(2) == 0
+	drop := r.Intn(4) // 0..2: the value left out; 3: nothing left out
+	res.Key = fmt.Sprintf("embedded-fields conv=%v drop=%d", asConv, drop)
+	res.obs("family.embedded-fields", 1)
+	if drop < 3 {
+		res.obs("underivable_cases", 1)
+	}
+	det := map[string]interface{}{"case": res.Key}
+	ran, convRan := 0, 0
+	var got embReq
+	var f *am.Func
+	var err error
+	var extra []am.Arg
+	if asConv {
+		conv := func(in embReq) T4 { convRan++; got = in; return T4{ID: 9} }
+		f, err = am.NewFunc(func(x T4) { ran++ })
+		extra = append(extra, am.Converter(conv))
+	} else {
+		f, err = am.NewFunc(func(in embReq) { ran++; got = in })
+	}
+	if err != nil {
+		res.violate("C14", "accepted-shape-rejected", "NewFunc rejected a struct with embedded fields: "+err.Error(), det)
+		return res
+	}
+	vals := []am.Arg{am.Named("T1", T1{ID: 11}), am.Typed(T2{ID: 12}), am.Named("a", T0{ID: 13})}
+	var args []am.Arg
+	for i, v := range vals {
+		if i != drop {
+			args = append(args, v)
+		}
+	}
+	args = append(args, extra...)
+	r.Shuffle(len(args), func(i, j int) { args[i], args[j] = args[j], args[i] })
+	o := DoCall(nil, f, args)
+	res.Evals++
+	if o.Class == ClsPanic {
+		res.violate("C06", "panic/"+crashKey(o.Panic), "Call panicked: "+o.Panic, det)
+		return res
+	}
+	if drop < 3 {
+		if o.Err == nil {
+			res.violate("C02", "underivable-accepted", "a value for an embedded field of the parameter struct is missing yet Call returned no error", det)
+		}
+		if ran+convRan > 0 {
+			res.violate("C02", "underivable-target-ran", fmt.Sprintf("a value for an embedded field is missing yet %d function bodies ran", ran+convRan), det)
+		}
+		if !asConv && o.Err != nil && o.Class != ClsUnsat {
+			res.violate("C02", "underivable-wrong-error", "the error is not the unsatisfied-argument error: "+firstLine(errStr(o.Err)), det)
+		}
+		return res
+	}
+	if o.Err != nil || ran != 1 {
+		res.violate("C05", "incomplete/"+o.Class, "every field has an exactly matching value but the call failed: "+firstLine(errStr(o.Err)), det)
+		return res
+	}
+	id2 := int64(-1)
+	if got.I1 != nil {
+		id2 = got.I1.I1tok()
+	}
+	if got.T1.ID != 11 || id2 != 12 || got.A.ID != 13 {
+		res.violate("C01", "binding/fabricated", fmt.Sprintf("the function received T1=#%d I1=#%d A=#%d, supplied #11 #12 #13", got.T1.ID, id2, got.A.ID), det)
+	}
+	return res
+}
